@@ -268,44 +268,62 @@ Proof.
   - cbn. rewrite F3. lia.
 Qed.
 
+Lemma copy_groups_good w0 : forall gs w w' gs',
+  Keeps w0 w -> FC w0 w -> copy_groups w gs = (w', gs') ->
+  Keeps w0 w' /\ FC w0 w' /\ (forall f, get_func w' f = get_func w f).
+Proof.
+  induction gs as [|g r IH]; intros w w' gs' Hk Hc H; cbn [copy_groups] in H.
+  - injection H as <- <-. auto.
+  - destruct (alloc w (deref w g)) as [w1 g1] eqn:E1. destruct (copy_groups w1 r) as [w2 r2] eqn:E2.
+    injection H as <- <-.
+    assert (K1 : Keeps w0 w1) by (replace w1 with (fst (alloc w (deref w g))) by (rewrite E1; reflexivity); apply Keeps_alloc'; exact Hk).
+    assert (C1 : FC w0 w1) by (replace w1 with (fst (alloc w (deref w g))) by (rewrite E1; reflexivity); apply FC_alloc; exact Hc).
+    destruct (IH w1 w2 r2 K1 C1 E2) as (K2 & C2 & G2). split; [exact K2|]. split; [exact C2|].
+    intro f. rewrite G2. replace w1 with (fst (alloc w (deref w g))) by (rewrite E1; reflexivity). apply get_func_alloc.
+Qed.
+
 Lemma decorate_namespace_fn_good w0 w bases dbc key acc f w' f' :
   Keeps w0 w -> FC w0 w -> fresh_f w0 f -> decorate_namespace_fn w bases dbc key acc f = Ok (w', f') ->
   Keeps w0 w' /\ FC w0 w' /\ fresh_f w0 f'.
 Proof.
   intros Hk Hc Hf H. unfold decorate_namespace_fn in H.
   destruct (lists_of_checker w (find_checker w f)) as [[own_g own_s] own_p].
-  match type of H with bind ?r _ = _ => destruct r as [[[gs ss] ps]|e]; cbn [bind] in H; [|discriminate] end.
-  destruct (is_nil gs && is_nil ps); [injection H as <- <-; auto|].
+  match type of H with bind ?r _ = _ => destruct r as [[[[bgs ogs] ss] ps]|e]; cbn [bind] in H; [|discriminate] end.
+  destruct (is_nil (bgs ++ ogs) && is_nil ps); [injection H as <- <-; auto|].
   destruct (find_checker w f) as [ch|] eqn:Fc.
   - (* the member has its own checker: the merged lists are assigned to it *)
     cbn [bind] in H. pose proof (find_checker_FC w0 w f ch Hc Hf Fc) as Hch.
     destruct (get_func w ch) as [chf|] eqn:G; [|discriminate].
-    destruct (alloc w (map IGroup gs)) as [w2 rp] eqn:E1. destruct (alloc w2 (map ISnapshot ss)) as [w3 rs] eqn:E2.
+    destruct (copy_groups w bgs) as [wc bgs'] eqn:E0.
+    destruct (copy_groups_good w0 bgs w wc bgs' Hk Hc E0) as (Kc & Cc & Gc).
+    destruct (alloc wc (map IGroup (bgs' ++ ogs))) as [w2 rp] eqn:E1. destruct (alloc w2 (map ISnapshot ss)) as [w3 rs] eqn:E2.
     destruct (alloc w3 (map IContract ps)) as [w4 rq] eqn:E3. injection H as <- <-.
     assert (K4 : Keeps w0 w4).
     { replace w4 with (fst (alloc w3 (map IContract ps))) by (rewrite E3; reflexivity). apply Keeps_alloc'.
       replace w3 with (fst (alloc w2 (map ISnapshot ss))) by (rewrite E2; reflexivity). apply Keeps_alloc'.
-      replace w2 with (fst (alloc w (map IGroup gs))) by (rewrite E1; reflexivity). apply Keeps_alloc'. exact Hk. }
+      replace w2 with (fst (alloc wc (map IGroup (bgs' ++ ogs)))) by (rewrite E1; reflexivity). apply Keeps_alloc'. exact Kc. }
     assert (C4 : FC w0 w4).
     { replace w4 with (fst (alloc w3 (map IContract ps))) by (rewrite E3; reflexivity). apply FC_alloc.
       replace w3 with (fst (alloc w2 (map ISnapshot ss))) by (rewrite E2; reflexivity). apply FC_alloc.
-      replace w2 with (fst (alloc w (map IGroup gs))) by (rewrite E1; reflexivity). apply FC_alloc. exact Hc. }
+      replace w2 with (fst (alloc wc (map IGroup (bgs' ++ ogs)))) by (rewrite E1; reflexivity). apply FC_alloc. exact Cc. }
     split; [apply Keeps_set_func; assumption|]. split; [|exact Hf].
     apply FC_set_func; [exact C4|]. cbn. intros nxt Hn. exact (Hc ch chf Hch G nxt Hn).
   - (* no checker yet: one is created around the member *)
     destruct (decorate_with_checker w f) as [[w1 ch]|e] eqn:D; cbn [bind fst snd] in H; [|discriminate].
     destruct (decorate_with_checker_FC w0 w f w1 ch Hk Hc Hf D) as (K1 & C1 & Hch & _).
     destruct (get_func w1 ch) as [chf|] eqn:G; [|discriminate].
-    destruct (alloc w1 (map IGroup gs)) as [w2 rp] eqn:E1. destruct (alloc w2 (map ISnapshot ss)) as [w3 rs] eqn:E2.
+    destruct (copy_groups w1 bgs) as [wc bgs'] eqn:E0.
+    destruct (copy_groups_good w0 bgs w1 wc bgs' K1 C1 E0) as (Kc & Cc & Gc).
+    destruct (alloc wc (map IGroup (bgs' ++ ogs))) as [w2 rp] eqn:E1. destruct (alloc w2 (map ISnapshot ss)) as [w3 rs] eqn:E2.
     destruct (alloc w3 (map IContract ps)) as [w4 rq] eqn:E3. injection H as <- <-.
     assert (K4 : Keeps w0 w4).
     { replace w4 with (fst (alloc w3 (map IContract ps))) by (rewrite E3; reflexivity). apply Keeps_alloc'.
       replace w3 with (fst (alloc w2 (map ISnapshot ss))) by (rewrite E2; reflexivity). apply Keeps_alloc'.
-      replace w2 with (fst (alloc w1 (map IGroup gs))) by (rewrite E1; reflexivity). apply Keeps_alloc'. exact K1. }
+      replace w2 with (fst (alloc wc (map IGroup (bgs' ++ ogs)))) by (rewrite E1; reflexivity). apply Keeps_alloc'. exact Kc. }
     assert (C4 : FC w0 w4).
     { replace w4 with (fst (alloc w3 (map IContract ps))) by (rewrite E3; reflexivity). apply FC_alloc.
       replace w3 with (fst (alloc w2 (map ISnapshot ss))) by (rewrite E2; reflexivity). apply FC_alloc.
-      replace w2 with (fst (alloc w1 (map IGroup gs))) by (rewrite E1; reflexivity). apply FC_alloc. exact C1. }
+      replace w2 with (fst (alloc wc (map IGroup (bgs' ++ ogs)))) by (rewrite E1; reflexivity). apply FC_alloc. exact Cc. }
     split; [apply Keeps_set_func; assumption|]. split; [|exact Hch].
     apply FC_set_func; [exact C4|]. cbn. intros nxt Hn. exact (C1 ch chf Hch G nxt Hn).
 Qed.
